@@ -378,7 +378,7 @@ fn random_op(rng: &mut Rng, g: &ControlFlowGraph, nested_ok: bool, max_blocks: u
             61..=65 => json!({"op": "set_entry", "b": pick_block(rng, &ids)}),
             66..=70 => json!({"op": "set_exit", "b": pick_block(rng, &ids)}),
             71..=75 => json!({"op": "block_append", "b": pick_block(rng, &ids), "src": pick_block(rng, &ids)}),
-            76..=81 => {
+            76..=81 | 89..=91 => {
                 let b = pick_block(rng, &ids);
                 let i = match g.block(b) {
                     Ok(blk) if !blk.instructions().is_empty() && !rng.chance(1, 8) => {
@@ -389,7 +389,7 @@ fn random_op(rng: &mut Rng, g: &ControlFlowGraph, nested_ok: bool, max_blocks: u
                 json!({"op": "remove_ins", "b": b, "i": i})
             }
             82..=88 => json!({"op": "merge"}),
-            89..=95 if nested_ok && room => {
+            92..=95 if nested_ok && room => {
                 // append needs entry and exit: usually provide them first
                 if g.entry().is_none() && rng.chance(3, 4) {
                     return json!({"op": "set_entry", "b": *rng.pick(&ids)});
@@ -449,7 +449,16 @@ fn targeted(out: &mut Out) {
     let nb = json!({"op": "new_block"});
     let ins = |b: usize, t: u64| json!({"op": "add_ins", "b": b, "kind": "assign", "tag": t, "addr": -1});
     let ue = |h: usize, t: usize| json!({"op": "uncond_edge", "h": h, "t": t});
+    let rm = |b: usize, i: usize| json!({"op": "remove_ins", "b": b, "i": i});
     let cases: Vec<Vec<Value>> = vec![
+        // instruction-index gaps before merge / Block::append (indices must stay unique, also for
+        // instructions created afterwards)
+        vec![nb.clone(), nb.clone(), ins(0, 1), ins(0, 2), ins(0, 3), ins(1, 4), rm(0, 0), ue(0, 1),
+             json!({"op": "set_entry", "b": 0}), json!({"op": "set_exit", "b": 1}), json!({"op": "merge"}), ins(0, 5), ins(0, 6)],
+        vec![nb.clone(), nb.clone(), ins(0, 1), ins(0, 2), ins(1, 3), ins(1, 4), rm(0, 0), rm(1, 0),
+             json!({"op": "block_append", "b": 0, "src": 1}), ins(0, 5), json!({"op": "block_append", "b": 0, "src": 1})],
+        vec![nb.clone(), nb.clone(), nb.clone(), ins(0, 1), ins(0, 2), ins(1, 3), ins(1, 4), ins(2, 5), rm(0, 0), rm(1, 1), ue(0, 1), ue(1, 2),
+             json!({"op": "set_entry", "b": 0}), json!({"op": "set_exit", "b": 2}), json!({"op": "merge"}), ins(0, 6)],
         // F1: chain 0->1->2, exit = 2, merge
         vec![nb.clone(), nb.clone(), nb.clone(), ins(0, 0), ins(1, 1), ins(2, 2), ue(0, 1), ue(1, 2),
              json!({"op": "set_entry", "b": 0}), json!({"op": "set_exit", "b": 2}), json!({"op": "merge"})],
